@@ -1,12 +1,14 @@
 #!/bin/bash
-# mutrun.sh <patch.diff> <check-id> [tier]: run a check against a scratch copy of /repo's sources with the patch applied
+# mutrun.sh <patch.diff> <check-id> [tier]: run a check against a scratch copy of /repo's sources with the patch applied.
+# exit status: that of the check (1 = violation reported = mutant caught).
 set -u
-patch=$1; id=$2; tier=${3:-quick}
+patch=$(readlink -f $1); id=$2; tier=${3:-quick}
 d=$(mktemp -d /tmp/mutrun.XXXXXX)
 cp -r /repo/src $d/src
-( cd $d && patch -s -p1 < $patch ) || { echo "patch failed"; rm -rf $d; exit 2; }
+( cd $d && grep -v '^# breaks' $patch | patch -s -p1 ) || { echo "patch failed"; rm -rf $d; exit 2; }
 cd /verif
-VERIF_REPO=$d ./check $id $tier 2>&1 | grep -v "^KNOWN-FINDING" | tail -${LINES_OUT:-4}
-rc=${PIPESTATUS[0]}
+VERIF_REPO=$d ./check $id $tier > $d/out.txt 2>&1
+rc=$?
+grep -v "^KNOWN-FINDING" $d/out.txt | tail -${LINES_OUT:-3}
 rm -rf $d
 exit $rc
